@@ -44,7 +44,9 @@ def _can_quote_plain(code):
     if code < 0 or code > 0x10FFFF or 0xD800 <= code <= 0xDFFF:
         return False
     ch = chr(code)
-    return ch.isprintable() and ch != "\\"
+    # Everything can stand between quotes as it is, control characters included, except the backslash (it starts an
+    # escape) and NUL / LF / CR (Python's tokenizer, which cutplace documents as its lexer, has no way to take them).
+    return ch not in "\\\0\n\r"
 
 
 @st.composite
@@ -187,7 +189,9 @@ META_CODE_POINTS = [34, 39, 92, 0x2026, 58, 44, 46, 45, 35, 32, 48, 120, 116, 50
                     # typographic twins of grammar characters (what word processors and spreadsheets substitute):
                     # minus and dashes, curly quotes, two / one dot leader, middle dots, full-width comma, colon, digit
                     0x2212, 0x2010, 0x2011, 0x2012, 0x2013, 0x2014, 0x2018, 0x2019, 0x201C, 0x201D, 0x2025, 0x2024,
-                    0x22EF, 0x00B7, 0xFF0C, 0xFF1A, 0xFF10, 0x02D0]
+                    0x22EF, 0x00B7, 0xFF0C, 0xFF1A, 0xFF10, 0x02D0,
+                    # characters that end a line for some text functions (str.splitlines) but not for others
+                    0x0B, 0x0C, 0x1C, 0x1D, 0x1E, 0x85, 0x2028, 0x2029, 0x09, 0x7F, 0xA0, 0xFEFF]
 
 
 def unstable_char_range_cases(max_items=3):
